@@ -126,7 +126,7 @@ BOM = "\ufeff"
 # assertions, no overflow checks (what a release build of the crates does: the LinearLocator has no
 # self-check and `u32` subtraction wraps). Only built in the thorough tier.
 HARNESS_R = {"bin": "pvh_c13", "features": "nodebug"}
-EXTRA_HARNESS = [HARNESS_R]
+EXTRA_HARNESS = [HARNESS_R, {"bin": "pvh_c13", "features": "all-ranges"}]
 
 # ------------------------------------------------------------------ independent reference
 
@@ -396,6 +396,19 @@ def _source_of(req):
     return None
 
 
+K_BOM_TOKENLESS = "linear-bom-tokenless-module-all-ranges"
+
+
+def _tokenless(src):
+    """the text after the BOM consists of blank lines and comments only"""
+    t = src[3:].decode("utf-8", "replace")
+    for line in re.split(r"\r\n|\r|\n", t):
+        l = line.lstrip(" \t\x0c")
+        if l and not l.startswith("#"):
+            return False
+    return True
+
+
 def _history_finding(src, ops, wrong):
     """Which listed finding explains a history that is not forward?  `wrong` = (start, end) ranges of
     the nodes located wrongly (release flavour) — they must all be explained too."""
@@ -429,6 +442,10 @@ def classify(req, impl_out, model_out, failure):
         if any(p[3] == "RandomLocator" for p in probs):
             return None
         nf = _first_not_forward(src, d["trace"])
+        if (d["lin"] == "panic" and src.startswith(b"\xef\xbb\xbf") and d["trace"] == ["l0=none"]
+                and len(d["nodes"]) == 1 and d["nodes"][0][0] in ("ModModule", "ModInteractive") and d["nodes"][0][1:3] == (0, 0)
+                and _tokenless(src)):
+            return K_BOM_TOKENLESS
         if d["lin"] == "panic":
             # debug flavour: the fold dies at the first call that is not forward
             if nf is None or nf[0] != len(d["trace"]) - 1 or not d["trace"][-1].endswith("=none"):
@@ -1098,6 +1115,21 @@ def streams(ctx):
         corpus.extend(_variants(s))
     located("corpus", corpus, "corpus", note="hand-written programs x {LF, CRLF, CR, BOM, BOM+CRLF}")
     located("known-finding-probes", KNOWN_PROBES, "corpus", note="one deterministic probe per listed finding shape")
+    # 1b. the all-nodes-with-ranges build: Arguments, ArgWithDefault, Comprehension, Keyword, WithItem, MatchCase ... carry
+    #     ranges too and are located by the fold (a parameterless lambda used to give the forward-only locator a range that
+    #     starts before its cursor: /repo 95d0600); both locators, every node, judged by the oracle
+    import shapes as _shapes
+    sh = _shapes.all_shapes()
+    ar_srcs = list(corpus) + ["".join(sh[i:i + 20]) for i in range(0, len(sh), 20)][:: (6 if quick else 1)] + [
+        "x = lambda: 1\n", "f = [lambda: 0, lambda *a: a, lambda **k: k, lambda a=1, /, b=2, *, c=3: a]\n",
+        "def f(): pass\n", "def f(a, /, b=1, *c, d, e=2, **g) -> int: pass\n", "class C(B, m=1, *a, **k): pass\n",
+        "with a as b, (c): pass\n", "[x for x in y if z async for w in v]\n", "f(a, k=1, *b, **c)\n",
+        "match x:\n    case {'k': v, **r} if g: pass\n    case C(a, k=b): pass\n"]
+    ar = {"bin": "pvh_c13", "features": "all-ranges"}
+    out.append(Stream("locate-all-ranges", [f"locate m {hexs(s)}" for s in ar_srcs], kind="corpus", compare=False, harness=ar,
+                      note="harness built with all-nodes-with-ranges: corpus variants + directed shapes (tools/shapes.py) + parameter / "
+                           "keyword / with-item / comprehension forms; LinearLocator and RandomLocator on every ranged node",
+                      nontrivial=lambda r: r.split()[2] != "-"))
     errs = []
     for s in ERRORS:
         errs.extend([s, s.replace("\n", "\r\n")])
